@@ -1030,7 +1030,14 @@ class Sense(_Relatable):
 
         """
         for lexid in self._home_lexicon_ids():
-            data = next(find_entries(id=self._entry_id, lexicon_rowids=(lexid,)), None)
+            data = next(
+                find_entries(
+                    id=self._entry_id,
+                    lexicon_rowids=(lexid,),
+                    form_lexicon_rowids=self._get_lexicon_ids(),
+                ),
+                None
+            )
             if data is not None:
                 return Word(*data, _wordnet=self._wordnet)
         raise wn.Error(f'no such lexical entry: {self._entry_id}')
